@@ -56,7 +56,9 @@ def special_case(draw):
         c["x1"], c["x2"] = draw(kern.points(n1, d)), draw(kern.points(n2, d))
     elif kind == "Arc":
         c.update(angle=draw(kern.arr([1, d], st.floats(0.15, 0.85).map(lambda v: float(f"{v:.3g}")))), radius=draw(kern.arr([1, d], kern.pos(0.3, 3.0))),
-                 ls=draw(kern.arr([1, d], kern.pos(0.5, 3.0))), nu=draw(st.sampled_from([0.5, 1.5, 2.5])))
+                 ls=draw(kern.arr([1, d], kern.pos(0.5, 3.0))), nu=draw(st.sampled_from([0.5, 1.5, 2.5])),
+                 # conditional dimensions: delta_i(x) = (x_i > threshold); None = the default (all dimensions active)
+                 delta_thresh=draw(st.sampled_from([None, None, -0.5, 0.0, 0.6])))
         c["x1"], c["x2"] = draw(kern.points(n1, d)), draw(kern.points(n2, d))
     elif kind in ("AdditiveStructure", "ProductStructure", "NewtonGirard", "SumInteraction"):
         d = draw(st.integers(1, 4))
@@ -71,7 +73,7 @@ def special_case(draw):
         c.update(t=t, members=[])
         for _ in range(nk):
             rank = draw(st.integers(1, t))
-            c["members"].append({"kernel": draw(kern.kernel_tree(d, [], depth=1, names=kern.STATIONARY + ["Periodic", "Poly2"], allow_ad=(kind != "LCM"))),
+            c["members"].append({"kernel": draw(kern.kernel_tree(d, [], depth=1, names=kern.STATIONARY + ["Periodic", "Poly2"], allow_ad=True)),
                                  "rank": rank,
                                  "covar_factor": draw(kern.arr([t, rank], kern.REAL)), "var": draw(kern.arr([t], kern.pos(0.05, 2.0)))})
         c["x1"], c["x2"] = draw(kern.points(n1, d)), draw(kern.points(n2, d))
@@ -179,13 +181,15 @@ def run_special(c, ctx: Ctx):
             want = torch.cos((x1.unsqueeze(1) - x2.unsqueeze(0)) @ W).mean(-1)
         elif kind == "Arc":
             d = c["d"]
-            k = K.ArcKernel(K.MaternKernel(nu=c["nu"]), ard_num_dims=d)
+            thr = c.get("delta_thresh")
+            k = K.ArcKernel(K.MaternKernel(nu=c["nu"]), ard_num_dims=d, delta_func=None if thr is None else (lambda x: x > thr))
             k.angle, k.radius, k.lengthscale = T(c["angle"]), T(c["radius"]), T(c["ls"])
             x1, x2 = T(c["x1"]), T(c["x2"])
             if same:
                 x2 = x1
-            emb = lambda x: torch.cat([T(c["radius"]) * torch.sin(math.pi * T(c["angle"]) * x / T(c["ls"])),  # noqa: E731
-                                       T(c["radius"]) * torch.cos(math.pi * T(c["angle"]) * x / T(c["ls"]))], -1)
+            act = lambda x: torch.ones_like(x) if thr is None else (x > thr).to(x.dtype)  # noqa: E731
+            emb = lambda x: torch.cat([act(x) * T(c["radius"]) * torch.sin(math.pi * T(c["angle"]) * x / T(c["ls"])),  # noqa: E731
+                                       act(x) * T(c["radius"]) * torch.cos(math.pi * T(c["angle"]) * x / T(c["ls"]))], -1)
             e1, e2 = emb(x1), emb(x2)
             rr = kern._safe_sqrt((e1.unsqueeze(1) - e2.unsqueeze(0)).pow(2).sum(-1))
             want = _matern(c["nu"], rr)
@@ -276,7 +280,7 @@ def run_special(c, ctx: Ctx):
     ctx.close("value", got, want, rtol=1e-9, atol=atol)
     if kind != "SumInteraction" and same and gotd is not None:
         ctx.close("diag", gotd, want.diagonal(), rtol=1e-9, atol=atol)
-    ctx.label(f"special={kind}", f"same={same}")
+    ctx.label(f"special={kind}", f"same={same}", *([f"arc.delta={c.get('delta_thresh') is not None}"] if kind == "Arc" else []))
     ctx.set_nontrivial(c["n1"] != c["n2"] or c["d"] >= 2 or same)
 
 
